@@ -9,6 +9,7 @@ import (
 	"encoding/hex"
 	"fmt"
 	"io"
+	"strconv"
 	"strings"
 	"testing"
 
@@ -439,7 +440,7 @@ func genVerifyCase(t *rapid.T) VerifyCase {
 	d := genData(t, "d")
 	return VerifyCase{Data: d, Cuts: genCuts(t, "cut", len(d)),
 		Source:    rapid.SampledFrom([]string{"field256", "field512", "best256", "best512", "bestboth", "hasher256", "hasher512", "hashermd5", "hashersha1"}).Draw(t, "source"),
-		Recorded:  rapid.SampledFrom([]string{"true", "true", "other", "nibble", "nibble", "truncated-even", "truncated-odd", "otheralgo", "upper"}).Draw(t, "recorded"),
+		Recorded:  rapid.SampledFrom([]string{"true", "true", "other", "nibble", "nibble", "truncated-even", "truncated-odd", "otheralgo", "upper", "extended", "zero-tail"}).Draw(t, "recorded"),
 		Which:     rapid.IntRange(0, 127).Draw(t, "which"),
 		SizeDelta: rapid.SampledFrom([]int{0, 0, 0, 0, -1, 1, -5, 100, -1000000}).Draw(t, "sizeDelta"),
 		Extra:     rapid.SampledFrom([]int{0, 0, 0, 0, 1, 2, 64, 4096}).Draw(t, "extra")}
@@ -447,7 +448,7 @@ func genVerifyCase(t *rapid.T) VerifyCase {
 
 var specC12Verify = Register(&Spec[VerifyCase]{
 	Prop: "C12", Name: "verify",
-	Rule: "(content, recorded hash) pairs; the entry comes from a Checksums-Sha256 / Checksums-Sha512 field parsed into []SHA256FileHash / []SHA512FileHash, from control.BestChecksums with only the 256 field, only the 512 field or both present (via Checksums()), or from FileHashFromHasher over any of the four hashers (md5, sha1, sha256, sha512); the recorded hash is the true digest, the digest of other content, one flipped nibble, truncated (even / odd length), the other algorithm's digest of the same content, or upper-case hex; the entry's Size column equals the stream length or is off by -1, +1, -5, +100 or far less, and in some cases the stream is the recorded content followed by 1..4096 further bytes. Oracle (the digest decides, not the size column; parsing the line into a variable that held other entries gives the same entry, a rejected line leaves the variable empty; once Verifier() has returned, the entry variable is overwritten with another entry - the verdict is about the entry the verifier was made from): the entry's Algorithm is that of the field it came from; writing the content in chunks and Close() returns nil iff digest_{entry algorithm}(content) == recorded hash (a malformed hex string may already be rejected by Verifier()). An entry built from an md5 or sha1 hasher is an entry built from a hasher like any other (Verifier() used to end the process with log.Fatalf for it - F52); md5/sha1 entries parsed from Files / Checksums-Sha1 fields are not named by the statement and not generated. Non-trivial: hash wrong in exactly one nibble, right under the wrong algorithm, or true with content in >= 2 chunks; distinct by case.",
+	Rule: "(content, recorded hash) pairs; the entry comes from a Checksums-Sha256 / Checksums-Sha512 field parsed into []SHA256FileHash / []SHA512FileHash, from control.BestChecksums with only the 256 field, only the 512 field or both present (via Checksums()), or from FileHashFromHasher over any of the four hashers (md5, sha1, sha256, sha512); the recorded hash is the true digest, the digest of other content, one flipped nibble, truncated (even / odd length; also cut by the zero byte a digest happens to end in), extended by zero or other bytes, the other algorithm's digest of the same content, or upper-case hex; the entry's Size column equals the stream length or is off by -1, +1, -5, +100 or far less, and in some cases the stream is the recorded content followed by 1..4096 further bytes. Oracle (the digest decides, not the size column; parsing the line into a variable that held other entries gives the same entry, a rejected line leaves the variable empty; once Verifier() has returned, the entry variable is overwritten with another entry - the verdict is about the entry the verifier was made from): the entry's Algorithm is that of the field it came from; writing the content in chunks and Close() returns nil iff digest_{entry algorithm}(content) == recorded hash (a malformed hex string may already be rejected by Verifier()). An entry built from an md5 or sha1 hasher is an entry built from a hasher like any other (Verifier() used to end the process with log.Fatalf for it - F52); md5/sha1 entries parsed from Files / Checksums-Sha1 fields are not named by the statement and not generated. Non-trivial: hash wrong in exactly one nibble, right under the wrong algorithm, or true with content in >= 2 chunks; distinct by case.",
 	Check: func(c VerifyCase, r *Recorder) error {
 		algo := "sha256"
 		switch c.Source {
@@ -458,9 +459,32 @@ var specC12Verify = Register(&Spec[VerifyCase]{
 		case "hashersha1":
 			algo = "sha1"
 		}
+		if c.Recorded == "zero-tail" {
+			// content whose digest ends in a zero byte (found by counting), recorded without it: a
+			// comparison that pads the shorter side with zeros calls the two equal
+			base := c.Data
+			if len(base) > 256 {
+				base = base[:256]
+			}
+			for k := 0; k < 5000; k++ {
+				cand := append(append([]byte{}, base...), []byte(strconv.Itoa(k))...)
+				if strings.HasSuffix(trueDigest(algo, cand), "00") {
+					c.Data = cand
+					break
+				}
+			}
+		}
 		trueHex := trueDigest(algo, c.Data)
 		rec := trueHex
 		switch c.Recorded {
+		case "zero-tail":
+			if strings.HasSuffix(trueHex, "00") {
+				rec = trueHex[:len(trueHex)-2]
+			} else {
+				rec = trueHex[:len(trueHex)-2] // (no such content found: an ordinary truncation)
+			}
+		case "extended":
+			rec = trueHex + []string{"00", "0000", "ab", "0", "00000000"}[c.Which%5]
 		case "other":
 			rec = trueDigest(algo, append([]byte("x"), c.Data...))
 		case "nibble":
